@@ -5,10 +5,11 @@
 -/
 import NrfModel.Drv.Net
 import NrfModel.Drv.Rf
+import NrfModel.Drv.NetS
 
 open Nrf.Drv
 
-def allHandlers : List (String × Handler) := netHandlers ++ rfHandlers
+def allHandlers : List (String × Handler) := netHandlers ++ rfHandlers ++ netSHandlers
 
 def dispatch (line : String) : String :=
   match (line.splitOn " ").filter (· ≠ "") with
